@@ -56,14 +56,27 @@ Definition last_end (ex : list exon) : Z := snd (last ex (0, 0)).
 
 (* ---- TranscriptAnnotationModel.get_transcript_index : genomic -> transcript ---- *)
 
-(* strand == 1 arm:  index = 0; for exon in self.exon: ... *)
+(* strand == 1 arm:  index = 0; for exon in self.exon: ...
+   (source after fix c35675e: `exon.end <= index` continues, so the shared boundary of two book-ended
+   exons reaches the next exon; a true intronic base is rejected by the next exon's `else`) *)
 Fixpoint g2tx_plus (ex : list exon) (g index : Z) : res Z :=
   match ex with
   | [] => Ok index                                   (* loop exhausted without break *)
   | (s, e) :: t =>
-      if e <? g then g2tx_plus t g (index + (e - s))
-      else if e =? g then Err EIntron
+      if e <=? g then g2tx_plus t g (index + (e - s))
       else if s <=? g then Ok (index + (g - s))      (* break *)
+      else Err EIntron
+  end.
+
+(* the arm as it was written BEFORE the fix (finding C11-bookend-plus): a position equal to an exon end
+   raised the intron error even when the next exon starts there *)
+Fixpoint g2tx_plus_old (ex : list exon) (g index : Z) : res Z :=
+  match ex with
+  | [] => Ok index
+  | (s, e) :: t =>
+      if e <? g then g2tx_plus_old t g (index + (e - s))
+      else if e =? g then Err EIntron
+      else if s <=? g then Ok (index + (g - s))
       else Err EIntron
   end.
 
@@ -326,15 +339,4 @@ Definition cdna_sequence (tbl : list (Z * Z)) (strand : Z) (ex : list exon) (cs 
       | Err e => Err e
       | Ok st => Ok (if strand =? -1 then revcomp tbl s else s, st)
       end
-  end.
-
-(* model of the plus-strand arm after proposed_fixes/C11_bookend_plus.patch (`exon.end <= index` continues,
-   the `== index` arm is gone) *)
-Fixpoint g2tx_plus_fixed (ex : list exon) (g index : Z) : res Z :=
-  match ex with
-  | [] => Ok index
-  | (s, e) :: t =>
-      if e <=? g then g2tx_plus_fixed t g (index + (e - s))
-      else if s <=? g then Ok (index + (g - s))
-      else Err EIntron
   end.
